@@ -84,7 +84,7 @@ REGISTRY = {
                 "delete-mismatch, misordered hunks, git rename onto an existing file) x backup always/onfail/never/default x threads 1/2/4/16 x -q/default/-v x prior applied state x goal -a/N. "
                 "Non-trivial: the failing patch is not the first of the run, or it has several file entries; distinct by (workspace shape, configuration).",
         "floor": floors(("failing-patch-not-first", 100), ("multi-file-failing-patch", 100), ("runs-applying-everything", 100),
-                        ("failing-file-patch-followed-by-another-for-the-same-file:verbosity=default", 10), ("prior-applied-patches-file-without-final-newline", 50), ("shape:patch-file-without-any-file-patch", 100),
+                        ("failing-file-patch-followed-by-another-for-the-same-file:verbosity=default", 10), ("prior-applied-patches-file-without-final-newline", 50), ("shape:patch-file-without-any-file-patch", 100), ("prior-applied-patches-file-of-zero-length", 100),
                         ("shape:empty-directories-in-the-starting-tree", 100)),
     },
     "C06": {
@@ -182,7 +182,7 @@ REGISTRY = {
         "rule": "baseline -q vs --mmap / default verbosity / -v / -vv / --color always|never / --stats / -A multiapply and combinations, over random series incl. failing ones, "
                 "zero-length source files, zero-length patch files, empty series, everything already applied, goal naming an applied patch; threads 1/4; backup always/default/never. "
                 "Non-trivial: the run fails or has at least one patch to apply; distinct by (workspace, shape, option set, configuration).",
-        "floor": floors(("shape:empty-source", 50), ("shape:empty-patch", 50), ("shape:empty-series", 50), ("shape:all-applied", 50), ("shape:goal-applied", 50), ("shape:symlinked-source", 50), ("shape:symlinked-patch", 50), ("shape:many-files-low-fd-limit", 50), ("shape:page-multiple-source", 50), ("failing-series", 200), ("options:--mmap", 100)),
+        "floor": floors(("shape:empty-source", 50), ("shape:empty-patch", 50), ("shape:empty-series", 50), ("shape:all-applied", 50), ("shape:goal-applied", 50), ("shape:symlinked-source", 50), ("shape:symlinked-patch", 50), ("shape:many-files-low-fd-limit", 50), ("shape:page-multiple-source", 50), ("shape:rename-over-a-file-the-failing-patch-emptied", 50), ("failing-series", 200), ("options:--mmap", 100)),
     },
     "C15": {
         "level_text": "real pushes under strace on a workspace whose files are hard-linked into a twin tree (all files, some, or none; a file without a twin is held open by the monitor instead); inode identity, twin content, the bytes and link count seen through the held descriptors and every syscall on bystander files are checked",
